@@ -268,6 +268,15 @@ theorem dv_eq_unfiltered (w : Rat) (l : List Rat) (hl : ∀ x ∈ l, 0 ≤ x) :
   unfold difficultyValue
   rw [hk, weightedSum_append_zeros]
 
+theorem forall2_nonneg {l l' : List Rat} (h : List.Forall₂ (· ≤ ·) l l') : (∀ x ∈ l, 0 ≤ x) → ∀ y ∈ l', 0 ≤ y := by
+  induction h with
+  | nil => intro _ y hy; cases hy
+  | cons hab _ ih =>
+    intro hl y hy
+    rcases List.mem_cons.mp hy with e | e
+    · rw [e]; exact le_trans (hl _ List.mem_cons_self) hab
+    · exact ih (fun x hx => hl x (List.mem_cons_of_mem _ hx)) y e
+
 /-! ### `count_top_weighted_strains` -/
 
 theorem sumOptL_map_bounds (f : Rat → Option Rat) (c : Rat) : ∀ (l : List Rat) (acc : Rat),
